@@ -132,7 +132,12 @@ UNIT = Unit(
     properties=["C09"],
     prelude=["time", "atomics", "realf", "tes_opaque"],
     rlimit=60,
-    trusted=[],
+    trusted=[
+        "prelude/realf.rs (R6): f64 as a mathematical real plus a finiteness flag cleared only by a division by zero; no rounding, overflow to infinity or NaN",
+        "axiom_W: W(a) = 0.1^(a/15) satisfies W(0) = 1, W(a+b) = W(a) W(b), 0 < W(a) < 1 for a > 0 (assumed of f64::powf)",
+        "frozen clock: every Instant::now() / elapsed() inside one getter call reads the same instant, not earlier than any stored instant",
+        "Duration::from_secs_f64 panics outside [0, 2^64) (std documentation); saturating float-to-int casts",
+    ],
     items=[
         Decl("src/state.rs", "struct", "Estimator", rewrites=F64_RW),
         Decl("src/state.rs", "struct", "AtomicPosition"),
